@@ -341,7 +341,7 @@ def problem_class(mode, extra_bases=()):
                 o["solver"] = solver
                 o.pop("ipopt", None)
                 if solver == "highs":
-                    o["highs"] = {"output_flag": False, "time_limit": 20.0, "primal_feasibility_tolerance": 1e-9,
+                    o["highs"] = {"output_flag": False, "time_limit": 5.0, "primal_feasibility_tolerance": 1e-9,
                                   "dual_feasibility_tolerance": 1e-9}
                 elif solver == "qpoases":
                     o["printLevel"] = "none"
